@@ -144,7 +144,7 @@ def task_emit_pass(ctx, pass_name):
     h = Harness(ctx)
     ph = EmitHarness(ctx, h, pass_name)
     ctx.under_contract(pass_name)
-    ctx.trust('A-STRUCT: struct.pack/calcsize behave as documented for the standard-size codes bBhHiIlLqQ with < or >')
+    ctx.trust('A-STRUCT: struct.pack/calcsize behave as documented for the standard-size codes bBhHiIlLqQ with < or >; int.to_bytes(n, order, signed=s) for n in 1,2,4,8 is the same encoder (OverflowError outside the range)')
     target_cls = {'resolve_instructions': 'Instruction', 'resolve_strings': 'String', 'resolve_sequences': 'Sequence',
                   'transform_shorthand_packs': 'ShorthandPack', 'resolve_packs': 'Pack', 'resolve_include_bytes': 'IncludeBytes'}.get(pass_name)
     for cls in P.item_classes(h):
